@@ -6,6 +6,10 @@ from riolib.sym import Sym, for_loops
 from riolib.guards import Tests, edge_dominates, fields_written_between, blocks_between
 from riolib.effects import effects, transitive_writes, place_field_chain
 
+THOROUGH_CONFIGS = ['dot']
+RELEASE_PROFILE = True
+
+
 MANIFEST = {
     "text": "Static panic-site audit over every non-derived body of the library (all are reachable from the public API): every Assert terminator (bounds, overflow, div/rem) and every call to a panicking std API (unwrap/expect, Index, Vec::remove/insert, copy_from_slice, explicit panic!) must be discharged by a dominating guard of a recognised class (presence test of the same place with no intervening write, ensure-present-then-get, induction variable of 0..len, constant index, unread-after-successful-read, comparison guard) or by a reviewed exception keyed by function and operand signature; plus a recursion audit of the call graph (SCC table with depth bounds), null-guard dominance in the extern C functions and the bounded-write invariants the guards rely on.",
     "technique": "static analysis: panic-site inventory with guard dominance over MIR, SCC audit of the resolved call graph",
@@ -944,6 +948,7 @@ def find_exception(site):
 # ---------------------------------------------------------------------------------------
 SCC_TABLE = [
     # (member that identifies the SCC, max size, depth bound / reason)
+    ("DOT", 16, "graphviz dump of the optional `dot` debugging feature: recursion over the 7 matcher layers and the regex tree depth (dyn/generic DotBuilder::graph expanded to every impl)"),
     ("regex_radix_tree::item::Item::", 2, "recursion over the radix tree: depth <= tree depth <= length of the longest stored pattern"),
     ("<regex_radix_tree::item::Item as std::clone::Clone>::clone", 2, "recursion over the radix tree depth"),
     ("<regex_radix_tree::iter::ItemIter as std::iter::Iterator>::next", 1, "skips to the next stored value: depth <= tree depth (empty children are pruned by remove/retain)"),
@@ -971,6 +976,11 @@ def r07_2(ctx):
             ident = keys[0]
             entry = None
             for pat, maxn, why in SCC_TABLE:
+                if pat == "DOT":
+                    if all("dot::DotBuilder" in k for k in keys) and len(keys) <= maxn:
+                        entry = why
+                        break
+                    continue
                 if any(k.startswith(pat) if pat.endswith("::") else k == pat for k in keys) and len(keys) <= maxn:
                     entry = why
                     break
